@@ -723,7 +723,23 @@ namespace xsimd
     template <typename T, class = typename std::enable_if<std::is_scalar<T>::value>::type>
     XSIMD_INLINE T ssub(const T& lhs, const T& rhs) noexcept
     {
-        if (std::numeric_limits<T>::is_signed)
+        if (std::numeric_limits<T>::is_integer && std::numeric_limits<T>::is_signed)
+        {
+            // not sadd(lhs, -rhs): -rhs overflows for rhs == lowest()
+            if ((rhs < 0) && (lhs > std::numeric_limits<T>::max() + rhs))
+            {
+                return std::numeric_limits<T>::max();
+            }
+            else if ((rhs > 0) && (lhs < std::numeric_limits<T>::lowest() + rhs))
+            {
+                return std::numeric_limits<T>::lowest();
+            }
+            else
+            {
+                return lhs - rhs;
+            }
+        }
+        else if (std::numeric_limits<T>::is_signed)
         {
             return sadd(lhs, (T)-rhs);
         }
